@@ -29,7 +29,7 @@ VERUS_UNITS = {
     'U-LIB-V': dict(module='contracts.verus.lib_translate', min_verified=11, timeout=600,
                     props=['C09', 'C03', 'C12', 'C15', 'C14', 'C02']),
     'U-MAIN-V': dict(module='contracts.verus.cli_main', min_verified=13, timeout=600,
-                     props=['C14', 'C03', 'C15', 'C13', 'C16', 'C04']),
+                     props=['C14', 'C03', 'C15', 'C13', 'C16', 'C04', 'C08']),
     'U-CAP-V': dict(module='contracts.verus.input_capture', min_verified=22, timeout=600,
                     native_search=dict(src='src/input.rs', file='capture_search.rs'),
                     props=['C09', 'C02', 'C04', 'C05', 'C12']),
